@@ -3,6 +3,10 @@ import Cx.Proofs.Fast
   Cx.Proofs.FastCex — FINDINGS as theorems: concrete inputs on which a fast-path searcher that its own applicability
   predicate accepts disagrees with the specification (all by `decide`; kernel evaluation of the models, hence the raised
   `maxRecDepth` — the 256-entry tables are built by `Array.ofFn`).
+  FIXED findings (`…_fixed`): the same witnesses, now with the theorem that the applicability predicate REJECTS the
+  pattern (lazy `cls+?`, lazy / `{0}` / non-ASCII composite part, case-folded anchored literal) or that the matcher now
+  answers what the reference matcher answers (`.` vs `\n`, Latin-1 literal) — the general exactness theorems of
+  Cx.Proofs.Fast no longer carry the corresponding hypotheses.
   The reference for "the correct answer" is the fragment specification where one exists (`plusFind`, `compFind` over
   `astParts`, `anchoredSpecB`) and the general leftmost-first reference matcher `Ref.refFind` otherwise; both are
   checked against Go's stdlib `regexp` by the harness.
@@ -11,47 +15,75 @@ namespace Cx.Fast
 open Cx Cx.Fast.Spec
 
 set_option maxRecDepth 1000000 in
-/-- FINDING (lazy quantifier ignored): `[a-c]+?` is accepted by `IsSimpleCharClassPlus`, the searcher answers the greedy
-    match `(0,2)` on "ab" where leftmost-first semantics of `[a-c]+?` is `(0,1)`. -/
-theorem charClassSearcher_lazy_counterexample :
+/-- FIXED (was: lazy quantifier ignored): `[a-c]+?` is no longer accepted by `IsSimpleCharClassPlus`
+    (`ExtractCharClassRanges` returns nil on `NonGreedy`), so no searcher is built for it; its greedy twin `[a-c]+` still
+    is, and answers the reference result.  (Leftmost-first semantics of `[a-c]+?` on "ab" is `(0,1)`, the searcher
+    would have said `(0,2)`.) -/
+theorem charClassSearcher_lazy_fixed :
     let re := Re.plusOf (Re.cls [97, 99]) (lazy := true)
-    isSimpleCharClassPlus re = true ∧
-    (buildCharClassSearcher re).map (fun s => s.searchAt #[97, 98] 0) = some (some (0, 2)) ∧
-    (buildCharClassSearcher re).map (fun s => plusFind re.nonGreedy s.mem #[97, 98] 0) = some (some (0, 1)) ∧
-    Ref.refFind re #[97, 98] 0 = some (0, 1) := by
+    let reG := Re.plusOf (Re.cls [97, 99])
+    isSimpleCharClassPlus re = false ∧ extractCharClassRanges re = none ∧
+    (buildCharClassSearcher re).isNone = true ∧
+    Ref.refFind re #[97, 98] 0 = some (0, 1) ∧
+    isSimpleCharClassPlus reG = true ∧
+    (buildCharClassSearcher reG).map (fun s => s.searchAt #[97, 98] 0) = some (some (0, 2)) ∧
+    Ref.refFind reG #[97, 98] 0 = some (0, 2) := by
   decide
 
 set_option maxRecDepth 1000000 in
-/-- FINDING (lazy quantifiers ignored): `[a-b]+?[b-c]*` is accepted by `IsCompositeCharClassPattern`; on "aa" the
-    searcher answers the greedy `(0,2)`, leftmost-first semantics is `(0,1)`. -/
-theorem compositeSearcher_lazy_counterexample :
+/-- FIXED (was: lazy quantifiers ignored): `[a-b]+?[b-c]*` is no longer accepted by `IsCompositeCharClassPattern`
+    (`isValidCompositePart` rejects a `NonGreedy` part).  The searcher itself is unchanged — `NewCompositeSearcher` would
+    still build one and it would still answer the greedy `(0,2)` on "aa" where leftmost-first semantics is `(0,1)` — it is
+    just never selected for such a pattern. -/
+theorem compositeSearcher_lazy_fixed :
     let re := Re.cat [Re.plusOf (Re.cls [97, 98]) (lazy := true), Re.starOf (Re.cls [98, 99])]
-    isCompositeCharClassPattern re = true ∧ ¬ AllGreedy re ∧
+    isCompositeCharClassPattern re = false ∧ ¬ AllGreedy re ∧
     (newCompositeSearcher re).map (fun c => c.searchAt #[97, 97] 0) = some (some (0, 2)) ∧
     (astParts re).map (fun ps => compFind ps #[97, 97] 0) = some (some (0, 1)) ∧
     Ref.refFind re #[97, 97] 0 = some (0, 1) := by
   decide
 
 set_option maxRecDepth 1000000 in
-/-- FINDING (`maxMatch = 0` means "unlimited"): `[a-b]{0}[b-c]+` is accepted; `{0}` becomes `maxMatch = 0`, which the
-    searcher reads as unbounded, i.e. it runs `[a-b]*[b-c]+`.  On "ab": searcher `(0,2)`, semantics `(1,2)`. -/
-theorem compositeSearcher_zeroMax_counterexample :
+/-- FIXED (was: `maxMatch = 0` means "unlimited"): `[a-b]{0}[b-c]+` is no longer accepted
+    (`isValidCompositePart` rejects `OpRepeat` with `Max == 0`).  The searcher would still read `{0}` as unbounded
+    ("ab": `(0,2)`, semantics `(1,2)`), but is never selected for it. -/
+theorem compositeSearcher_zeroMax_fixed :
     let re := Re.cat [Re.repOf (Re.cls [97, 98]) 0 0, Re.plusOf (Re.cls [98, 99])]
-    isCompositeCharClassPattern re = true ∧ AllGreedy re ∧ ¬ NoZeroMax re ∧
+    isCompositeCharClassPattern re = false ∧ AllGreedy re ∧ ¬ NoZeroMax re ∧
     (newCompositeSearcher re).map (fun c => c.searchAt #[97, 98] 0) = some (some (0, 2)) ∧
     (astParts re).map (fun ps => compFind ps #[97, 98] 0) = some (some (1, 2)) ∧
     Ref.refFind re #[97, 98] 0 = some (1, 2) := by
   decide
 
 set_option maxRecDepth 1000000 in
-/-- FINDING (`.` matches `\\n`): `^a.*b$` is accepted; on "a\\nb" the matcher says `true`, the specification (`.` does not
-    match a newline) says `false`. -/
-theorem anchoredLiteral_newline_counterexample :
+/-- FIXED (was: `.` matches `\\n`): `^a.*b$` on "a\\nb": the matcher now says `false` (`wildcardOK` finds the newline in
+    the wildcard span), as the specification and the reference matcher do; the `(?s)` twin `^a(?s:.)*b$` records
+    `WildcardMatchesNewline` and still matches. -/
+theorem anchoredLiteral_newline_fixed :
     let re := Re.cat [Re.leaf .beginText, Re.lit [97], Re.starOf (Re.leaf .anyCharNotNL), Re.lit [98], Re.leaf .endText]
+    let reS := Re.cat [Re.leaf .beginText, Re.lit [97], Re.starOf (Re.leaf .anyChar), Re.lit [98], Re.leaf .endText]
     wildcardDotNL re = false ∧
-    (detectAnchoredLiteral re).map (fun info => matchAnchoredLiteral #[97, 10, 98] info) = some true ∧
+    (detectAnchoredLiteral re).map (fun info => info.wildcardMatchesNewline) = some false ∧
+    (detectAnchoredLiteral re).map (fun info => matchAnchoredLiteral #[97, 10, 98] info) = some false ∧
     (detectAnchoredLiteral re).map (fun info => anchoredSpecB (wildcardDotNL re) info #[97, 10, 98]) = some false ∧
-    Ref.refFind re #[97, 10, 98] 0 = none := by
+    Ref.refFind re #[97, 10, 98] 0 = none ∧
+    wildcardDotNL reS = true ∧
+    (detectAnchoredLiteral reS).map (fun info => info.wildcardMatchesNewline) = some true ∧
+    (detectAnchoredLiteral reS).map (fun info => matchAnchoredLiteral #[97, 10, 98] info) = some true ∧
+    Ref.refFind reS #[97, 10, 98] 0 = some (0, 3) := by
+  decide
+
+set_option maxRecDepth 1000000 in
+/-- the class-bridge form of the same fix: `^a.*[b\\n]+c$` — the matcher tests the SHORTEST wildcard span (what is left of
+    the longest class run): "a\\n\\nc" matches (both newlines belong to the class run, the wildcard is empty),
+    "a\\nxbc" does not (the newline is left of the run "b"). -/
+theorem anchoredLiteral_bridge_newline_fixed :
+    let re := Re.cat [Re.leaf .beginText, Re.lit [97], Re.starOf (Re.leaf .anyCharNotNL),
+                      Re.plusOf (Re.cls [10, 10, 98, 98]), Re.lit [99], Re.leaf .endText]
+    (detectAnchoredLiteral re).map (fun info => matchAnchoredLiteral #[97, 10, 10, 99] info) = some true ∧
+    Ref.refFind re #[97, 10, 10, 99] 0 = some (0, 4) ∧
+    (detectAnchoredLiteral re).map (fun info => matchAnchoredLiteral #[97, 10, 120, 98, 99] info) = some false ∧
+    Ref.refFind re #[97, 10, 120, 98, 99] 0 = none := by
   decide
 
 set_option maxRecDepth 1000000 in
@@ -136,12 +168,12 @@ theorem charClassSearcher_minMatch_zero_counterexample :
 /-! ### runes 0x80–0xFF used as bytes, `FoldCase` ignored: counterexamples against the reference matcher -/
 
 set_option maxRecDepth 1000000 in
-/-- FINDING (Latin-1 runes used as bytes, CompositeSearcher): `[a-b\x{e9}]+[0-9]+` is accepted and a searcher is built
-    (`extractSinglePart` only rejects runes `> 255`); on "é1" = C3 A9 31 the searcher finds nothing, correct `(0,3)`;
-    on the ill-formed E9 31 it reports `(0,2)`, correct: no match. -/
-theorem compositeSearcher_latin1_counterexample :
+/-- FIXED (was: Latin-1 runes used as bytes, CompositeSearcher): `[a-b\\x{e9}]+[0-9]+` is no longer accepted
+    (`isValidCompositePart` rejects a class whose last rune is above U+007F).  The searcher would still miss "é1" =
+    C3 A9 31 (correct `(0,3)`) and report the ill-formed E9 31, but is never selected for such a pattern. -/
+theorem compositeSearcher_latin1_fixed :
     let re := Re.cat [Re.plusOf (Re.cls [97, 98, 0xE9, 0xE9]), Re.plusOf (Re.cls [48, 57])]
-    isCompositeCharClassPattern re = true ∧ AllGreedy re ∧ NoZeroMax re ∧ ¬ AsciiOnly re ∧
+    isCompositeCharClassPattern re = false ∧ AllGreedy re ∧ NoZeroMax re ∧ ClassSorted re ∧ ¬ AsciiOnly re ∧
     (newCompositeSearcher re).map (fun c => c.searchAt #[0xC3, 0xA9, 49] 0) = some none ∧
     Ref.refFind re #[0xC3, 0xA9, 49] 0 = some (0, 3) ∧
     (newCompositeSearcher re).map (fun c => c.searchAt #[0xE9, 49] 0) = some (some (0, 2)) ∧
@@ -149,24 +181,50 @@ theorem compositeSearcher_latin1_counterexample :
   decide
 
 set_option maxRecDepth 1000000 in
-/-- FINDING (Latin-1 literal emitted as ONE byte, anchored literal): `^.*\x{e9}$` — `extractLiteral` UTF-8-encodes runes
-    `> 255` only, so the suffix is the single byte E9: "é" = C3 A9 is rejected (correct: match), the ill-formed "\xe9"
-    is accepted (correct: no match). -/
-theorem anchoredLiteral_latin1_counterexample :
-    let re := Re.cat [Re.leaf .beginText, Re.starOf (Re.leaf .anyCharNotNL), Re.lit [0xE9], Re.leaf .endText]
-    (detectAnchoredLiteral re).map (fun info => matchAnchoredLiteral #[0xC3, 0xA9] info) = some false ∧
-    Ref.refFind re #[0xC3, 0xA9] 0 = some (0, 2) ∧
-    (detectAnchoredLiteral re).map (fun info => matchAnchoredLiteral #[0xE9] info) = some true ∧
-    Ref.refFind re #[0xE9] 0 = none := by
+/-- why `compositeSearcher_eq_reference` keeps the two PARSER-INVARIANT hypotheses: on hand-built ASTs that violate
+    them (the parser never produces these) the predicate accepts and the searcher disagrees with the reference matcher.
+    `[a]{3,2}[b]+` (`¬ RepeatOK`) on "aaab": searcher nothing, reference `(0,4)`;
+    a class with UNSORTED `Rune` `[é-é a-b]` (`¬ ClassSorted`; the last rune is `b`, so the U+007F test passes) followed
+    by `[0-9]+` on "é1": searcher nothing, reference `(0,3)`. -/
+theorem compositeSearcher_parserInvariants_needed :
+    let re1 := Re.cat [Re.repOf (Re.cls [97, 97]) 3 2, Re.plusOf (Re.cls [98, 98])]
+    let re2 := Re.cat [Re.plusOf (Re.cls [0xE9, 0xE9, 97, 98]), Re.plusOf (Re.cls [48, 57])]
+    (isCompositeCharClassPattern re1 = true ∧ ClassSorted re1 ∧ ¬ RepeatOK re1 ∧
+     (newCompositeSearcher re1).map (fun c => c.searchAt #[97, 97, 97, 98] 0) = some none ∧
+     Ref.refFind re1 #[97, 97, 97, 98] 0 = some (0, 4)) ∧
+    (isCompositeCharClassPattern re2 = true ∧ RepeatOK re2 ∧ ¬ ClassSorted re2 ∧
+     (newCompositeSearcher re2).map (fun c => c.searchAt #[0xC3, 0xA9, 49] 0) = some none ∧
+     Ref.refFind re2 #[0xC3, 0xA9, 49] 0 = some (0, 3)) := by
   decide
 
 set_option maxRecDepth 1000000 in
-/-- FINDING (`FoldCase` ignored, anchored literal): `(?i)^a.*b$` (literals stored folded as "A", "B"): "ab" is rejected,
-    correct: match `(0,2)`. -/
-theorem anchoredLiteral_foldCase_counterexample :
+/-- FIXED (was: Latin-1 literal emitted as ONE byte): `^.*\\x{e9}$` — `extractLiteral` now UTF-8-encodes every rune above
+    U+007F, the suffix is C3 A9: "é" = C3 A9 is accepted, the ill-formed "\\xe9" is rejected, both as the reference
+    matcher says.  A class bridge with a member above U+007F (`^.*[a-b\\x{e9}]+x$`) is no longer detected at all. -/
+theorem anchoredLiteral_latin1_fixed :
+    let re := Re.cat [Re.leaf .beginText, Re.starOf (Re.leaf .anyCharNotNL), Re.lit [0xE9], Re.leaf .endText]
+    let reB := Re.cat [Re.leaf .beginText, Re.starOf (Re.leaf .anyCharNotNL),
+                       Re.plusOf (Re.cls [97, 98, 0xE9, 0xE9]), Re.lit [120], Re.leaf .endText]
+    (detectAnchoredLiteral re).map (fun info => info.sfx) = some #[0xC3, 0xA9] ∧
+    (detectAnchoredLiteral re).map (fun info => matchAnchoredLiteral #[0xC3, 0xA9] info) = some true ∧
+    Ref.refFind re #[0xC3, 0xA9] 0 = some (0, 2) ∧
+    (detectAnchoredLiteral re).map (fun info => matchAnchoredLiteral #[0xE9] info) = some false ∧
+    Ref.refFind re #[0xE9] 0 = none ∧
+    (detectAnchoredLiteral reB).isNone = true := by
+  decide
+
+set_option maxRecDepth 1000000 in
+/-- FIXED (was: `FoldCase` ignored, anchored literal): `(?i)^a.*b$` (literals stored folded as "A", "B") is no longer
+    detected (`extractLiteral` returns nil for a `FoldCase` literal) — neither with the folded literal as prefix nor as
+    suffix only; the pattern ("ab" must match: `(0,2)`) goes to the general engines. -/
+theorem anchoredLiteral_foldCase_fixed :
     let re := Re.cat [Re.leaf .beginText, Re.litFold [65], Re.starOf (Re.leaf .anyCharNotNL), Re.litFold [66],
                       Re.leaf .endText]
-    (detectAnchoredLiteral re).map (fun info => matchAnchoredLiteral #[97, 98] info) = some false ∧
+    let reSfx := Re.cat [Re.leaf .beginText, Re.starOf (Re.leaf .anyCharNotNL), Re.litFold [66], Re.leaf .endText]
+    let rePfx := Re.cat [Re.leaf .beginText, Re.litFold [65], Re.starOf (Re.leaf .anyCharNotNL), Re.lit [98],
+                         Re.leaf .endText]
+    (detectAnchoredLiteral re).isNone = true ∧ (detectAnchoredLiteral reSfx).isNone = true ∧
+    (detectAnchoredLiteral rePfx).isNone = true ∧
     Ref.refFind re #[97, 98] 0 = some (0, 2) := by
   decide
 
